@@ -1200,4 +1200,22 @@ mut(
     mention=["footer"],
 )
 
+mut(
+    "c17-construct-default-by-type-name",
+    "C17",
+    "C17.exec",
+    "cdd/shared/docstring_parsers.py",
+    """    if infer_type and _param.get("typ") is None and _param["default"] not in none_types:
+        _param["typ"] = type(_param["default"]).__name__
+""",
+    """    if infer_type and _param.get("typ") is None and _param["default"] not in none_types:
+        _param["typ"] = type(_param["default"]).__name__
+    elif isinstance(_param.get("typ"), str) and isinstance(_param["default"], str):
+        import builtins
+
+        if hasattr(builtins, _param["typ"]):
+            _param["default"] = getattr(builtins, _param["typ"])(_param["default"])
+""",
+)
+
 MUTANTS = M
